@@ -1688,6 +1688,57 @@ process_data_received = Spec(
 process_data_received.abstract_fns = ABSTRACT
 
 
+# ================================================================== communicate() / wait(): lifting the limit
+def wait_closed_stub(cx):
+    """`await self.wait_closed()`: a suspension - control leaves the session's methods, so the flow-control invariant
+    J must hold HERE (with the limit just lifted: reading must not stay paused for the buffered amount, or the rest
+    of the output never arrives and the channel never closes); while suspended the environment runs"""
+    outs = env_step(cx)
+    for o in outs:
+        o.event = ('wait_closed', ())
+    return outs + [Out(exc=VExc('CancelledError'))]
+
+
+wait_closed_stub.modifies = tuple(ENV_FIELDS)
+
+
+def chan_event_stub(name):
+    def stub(cx):
+        return [Out(ret=VNone, event=(name, tuple(cx.args)))]
+    stub.modifies = ()
+    return stub
+
+
+def collect_output_stub(cx):
+    return [Out(ret=VTuple([cx.fresh('bytes', 'stdout_data'), cx.fresh('bytes', 'stderr_data')]),
+                event=('collect_output', ()))]
+
+
+collect_output_stub.modifies = ()
+
+communicate = Spec(
+    PROP, 'process', 'SSHClientProcess.communicate', self_class='SSHStreamSession',
+    params=dict(input='opt[bytes]'), classes=CLASSES,
+    stubs={'self._maybe_resume_reading': resume_stub, 'self._chan.write': chan_event_stub('chan_write'),
+           'self._chan.write_eof': chan_event_stub('chan_write_eof'), 'self.wait_closed': wait_closed_stub,
+           'self.collect_output': collect_output_stub},
+    requires=lambda c: z3.And(wf(c), accounted(c, False), R.ok(buf(c, False)), flow_inv(c, False)),
+    lemmas=auto_lemmas,
+    ensures=[
+        ('limit-lifted', lambda c: c.new('_limit') == 0),
+        # (the obligation that matters is pre-at-call(self.wait_closed:flow-control-invariant): J with limit 0 when
+        # the call suspends, i.e. reading has been resumed if only the old limit had paused it)
+        ('input-written-then-eof-before-waiting', lambda c: z3.BoolVal(
+            [e[0] for e in c.new_state.events if e[0] in ('chan_write', 'chan_write_eof', 'wait_closed')] in
+            (['chan_write', 'chan_write_eof', 'wait_closed'], ['wait_closed']))),
+        ('output-collected-after-the-channel-closed', lambda c: z3.BoolVal(
+            [e[0] for e in c.new_state.events if e[0] in ('wait_closed', 'collect_output')] ==
+            ['wait_closed', 'collect_output'])),
+    ],
+    raises={'CancelledError': True})
+communicate.abstract_fns = ABSTRACT
+
+
 def register_reader_contracts_under(prop):
     """Re-register the stream-reader delivery contracts (read incl. readexactly mode, readuntil for a literal and for the
     newline sentinel, readline) under another property id: same contract objects, obligations named <prop>.stream....
